@@ -1,24 +1,280 @@
-import FluteModel.Partition
-import FluteModel.Spec.Rfc5052
+import FluteModel.Lemmas.Partition
+/-
+  C07 — Block partitioning equals RFC 5052 §9.1 for all (L, E, B); both ends agree.
+  Only property theorems here; helpers are in FluteModel/Lemmas/Partition.lean.
+-/
 namespace Flute.Props.C07
-open Flute Flute.Partition Flute.Spec
+open Flute Flute.Partition Flute.Spec Flute.Lemmas.Partition
 
-theorem divCeil_eq_ceilDiv (a b : Nat) (hb : 0 < b) : divCeil a b = ceilDiv a b := by
-  unfold divCeil ceilDiv
-  have h1 := Nat.div_add_mod a b
-  have h2 := Nat.mod_lt a hb
-  split
-  · rename_i h
-    have : a = b * (a / b) := by omega
-    have h3 : a + b - 1 = b * (a / b) + (b - 1) := by omega
-    rw [h3, Nat.mul_add_div hb]
-    have : (b - 1) / b = 0 := Nat.div_eq_of_lt (by omega)
+/-- (1)+(2) For every B > 0, E > 0 and every transfer length L (any `Nat`, in particular every u64 and every
+    L < 2^48) the Rust function returns — without overflow (`.ok`) — exactly the RFC 5052 quadruple
+    `(A_large, A_small, I, N)`; for L = 0 (N = 0) it returns zeros. -/
+theorem partition_eq_rfc (b l e : Nat) (hb : 0 < b) (he : 0 < e) (hl : l < 2^64) :
+    blockPartitioning b l e =
+      .ok (if (rfc5052 l e b).N = 0 then (0, 0, 0, 0)
+           else ((rfc5052 l e b).aLarge, (rfc5052 l e b).aSmall, (rfc5052 l e b).I, (rfc5052 l e b).N)) := by
+  unfold blockPartitioning rfc5052
+  simp only [Nat.ne_of_gt hb, Nat.ne_of_gt he, if_false]
+  rw [← divCeil_eq_ceilDiv l e he, ← divCeil_eq_ceilDiv (divCeil l e) b hb]
+  by_cases hn : divCeil (divCeil l e) b = 0
+  · simp [hn]
+  · simp only [hn, if_false]
+    have hnpos : 0 < divCeil (divCeil l e) b := Nat.pos_of_ne_zero hn
+    rw [← divCeil_eq_ceilDiv (divCeil l e) _ hnpos]
+    -- a_small * n ≤ t < 2^64, so neither the multiplication nor the subtraction overflows
+    have hle : divCeil l e / divCeil (divCeil l e) b * divCeil (divCeil l e) b ≤ divCeil l e :=
+      Nat.div_mul_le_self _ _
+    have ⟨_, ht2⟩ := divCeil_spec l e he
+    have htl : divCeil l e ≤ l := by
+      rcases Nat.eq_zero_or_pos l with h0 | hpos
+      · subst h0; simp [divCeil]
+      · -- ⌈l/e⌉ ≤ l because e ≥ 1: (⌈l/e⌉ - 1)·e < l
+        have h3 : (divCeil l e - 1) * e = divCeil l e * e - e := by rw [Nat.sub_mul]; simp
+        have h4 : (divCeil l e - 1) * 1 ≤ (divCeil l e - 1) * e := Nat.mul_le_mul_left _ he
+        omega
+    unfold u64mul u64sub
+    have h1 : divCeil l e / divCeil (divCeil l e) b * divCeil (divCeil l e) b < 2^64 := by omega
+    simp [h1, hle]
+
+/-- (7) degenerate inputs: `B = 0 ∨ E = 0 ∨ L = 0` give `(0,0,0,0)` (no panic, no division by zero). -/
+theorem partition_degenerate (b l e : Nat) (h : b = 0 ∨ e = 0 ∨ l = 0) :
+    blockPartitioning b l e = .ok (0, 0, 0, 0) := by
+  unfold blockPartitioning
+  by_cases hb : b = 0
+  · simp [hb]
+  by_cases he : e = 0
+  · simp [hb, he]
+  have hl : l = 0 := by rcases h with h | h | h <;> first | contradiction | exact h
+  subst hl
+  simp [hb, he, divCeil]
+
+/-- the spec's per-block quantities coincide with the `(q, r)` form used in the lemmas -/
+private theorem spec_fields (b l e : Nat) (hb : 0 < b) (he : 0 < e) (hl0 : 0 < l) :
+    let T := divCeil l e
+    let N := divCeil T b
+    (rfc5052 l e b).T = T ∧ (rfc5052 l e b).N = N ∧
+    (rfc5052 l e b).aLarge = (if T % N = 0 then T / N else T / N + 1) ∧
+    (rfc5052 l e b).aSmall = T / N ∧ (rfc5052 l e b).I = T % N := by
+  intro T N
+  have hT : 0 < T := divCeil_pos l e he hl0
+  have ⟨hN, hNT, _⟩ := nblocks_bounds T b hT hb
+  have ⟨_, hI, hAL⟩ := quad_shape T N hN hNT
+  unfold rfc5052
+  simp only
+  rw [← divCeil_eq_ceilDiv l e he, ← divCeil_eq_ceilDiv (divCeil l e) b hb,
+    ← divCeil_eq_ceilDiv (divCeil l e) _ hN]
+  exact ⟨rfl, rfl, hAL, rfl, hI⟩
+
+/-- (3) For L > 0 the RFC partition covers exactly `T` symbols (`I·A_large + (N−I)·A_small = T`), no block
+    exceeds `B`, the two block sizes differ by at most one, there is at least one block and every block
+    has at least one symbol, and `I < N`. -/
+theorem partition_covers (b l e : Nat) (hb : 0 < b) (he : 0 < e) (hl0 : 0 < l) :
+    let p := rfc5052 l e b
+    p.I * p.aLarge + (p.N - p.I) * p.aSmall = p.T ∧ p.aLarge ≤ b ∧ p.aSmall ≤ p.aLarge ∧
+    p.aLarge ≤ p.aSmall + 1 ∧ 0 < p.N ∧ 1 ≤ p.aSmall ∧ p.I < p.N ∧
+    l ≤ p.T * e ∧ p.T * e < l + e := by
+  intro p
+  have ⟨h1, h2, h3, h4, h5⟩ := spec_fields b l e hb he hl0
+  have hT : 0 < divCeil l e := divCeil_pos l e he hl0
+  have ⟨hN, hNT, _⟩ := nblocks_bounds (divCeil l e) b hT hb
+  have ⟨hq, _, hAL⟩ := quad_shape (divCeil l e) (divCeil (divCeil l e) b) hN hNT
+  have hcov := coverage (divCeil l e) (divCeil (divCeil l e) b) hN
+  have hB := aLarge_le_B (divCeil l e) b hT hb
+  have hr := Nat.mod_lt (divCeil l e) hN
+  have ⟨s1, s2⟩ := divCeil_spec l e he
+  show (rfc5052 l e b).I * (rfc5052 l e b).aLarge + ((rfc5052 l e b).N - (rfc5052 l e b).I) * (rfc5052 l e b).aSmall
+        = (rfc5052 l e b).T ∧ _
+  rw [h1, h2, h3, h4, h5]
+  refine ⟨hcov, ?_, ?_, ?_, hN, hq, hr, s1, s2⟩
+  · rw [← hAL]; exact hB
+  · split <;> omega
+  · split <;> omega
+
+/-- (4a) For every block `sbn < N` of an object with `0 < L < 2^48`, `E < 2^16` the Rust `block_length`, applied to
+    the quadruple returned by `block_partitioning`, returns — without overflow — the RFC byte length of that
+    block: `min((first+k)·E, L) − min(first·E, L)`. -/
+theorem block_length_eq_rfc (b l e sbn aL aS nL n : Nat) (hb : 0 < b) (he : 0 < e) (hl0 : 0 < l)
+    (hl : l < 2^48) (he16 : e < 2^16)
+    (hq : blockPartitioning b l e = .ok (aL, aS, nL, n)) (hs : sbn < n) :
+    blockLength aL aS nL l e sbn = .ok ((rfc5052 l e b).byteLen l e sbn) := by
+  rw [bp_shape b l e hb he hl0 (by omega)] at hq
+  injection hq with hq
+  simp only [Prod.mk.injEq] at hq
+  obtain ⟨rfl, rfl, rfl, rfl⟩ := hq
+  have ⟨h1, h2, h3, h4, h5⟩ := spec_fields b l e hb he hl0
+  have hT : 0 < divCeil l e := divCeil_pos l e he hl0
+  have ⟨hN, hNT, _⟩ := nblocks_bounds (divCeil l e) b hT hb
+  have ⟨hq1, _, _⟩ := quad_shape (divCeil l e) (divCeil (divCeil l e) b) hN hNT
+  have ⟨s1, s2⟩ := divCeil_spec l e he
+  have hdm := Nat.div_add_mod (divCeil l e) (divCeil (divCeil l e) b)
+  rw [blockLength_spec (divCeil l e) (divCeil (divCeil l e) b) _ _ l e sbn hq1
+    (Nat.mod_lt _ hN) (by omega) s1 s2 (by omega) hs]
+  unfold Rfc5052.byteLen Rfc5052.firstSymbol Rfc5052.symbolsOf
+  rw [h3, h4, h5]
+  rfl
+
+/-- (4b) The byte lengths of the `N` blocks sum to `L`. -/
+theorem block_lengths_sum (b l e : Nat) (hb : 0 < b) (he : 0 < e) (hl0 : 0 < l) :
+    ((List.range (rfc5052 l e b).N).map ((rfc5052 l e b).byteLen l e)).sum = l := by
+  have ⟨h1, h2, h3, h4, h5⟩ := spec_fields b l e hb he hl0
+  have hT : 0 < divCeil l e := divCeil_pos l e he hl0
+  have ⟨hN, hNT, _⟩ := nblocks_bounds (divCeil l e) b hT hb
+  have hcov := coverage (divCeil l e) (divCeil (divCeil l e) b) hN
+  have ⟨s1, s2⟩ := divCeil_spec l e he
+  have hr := Nat.mod_lt (divCeil l e) hN
+  have hfun : (rfc5052 l e b).byteLen l e =
+      byteLen (if divCeil l e % divCeil (divCeil l e) b = 0 then divCeil l e / divCeil (divCeil l e) b
+               else divCeil l e / divCeil (divCeil l e) b + 1)
+        (divCeil l e / divCeil (divCeil l e) b) (divCeil l e % divCeil (divCeil l e) b) l e := by
+    funext sbn
+    unfold Rfc5052.byteLen Rfc5052.firstSymbol Rfc5052.symbolsOf byteLen firstSym symsOf
+    rw [h3, h4, h5]
+  rw [hfun, h2, byteLen_sum, firstSym_N _ _ _ _ (Nat.le_of_lt hr), hcov]
+  omega
+
+/-- (4c) Only the last block can be short: every block `sbn + 1 < N` is exactly `A_sbn · E` bytes. -/
+theorem only_last_block_short (b l e sbn : Nat) (hb : 0 < b) (he : 0 < e) (hl0 : 0 < l)
+    (hs : sbn + 1 < (rfc5052 l e b).N) :
+    (rfc5052 l e b).byteLen l e sbn = (rfc5052 l e b).symbolsOf sbn * e := by
+  have ⟨h1, h2, h3, h4, h5⟩ := spec_fields b l e hb he hl0
+  have hT : 0 < divCeil l e := divCeil_pos l e he hl0
+  have ⟨hN, hNT, _⟩ := nblocks_bounds (divCeil l e) b hT hb
+  have ⟨hq1, _, _⟩ := quad_shape (divCeil l e) (divCeil (divCeil l e) b) hN hNT
+  have hcov := coverage (divCeil l e) (divCeil (divCeil l e) b) hN
+  have ⟨s1, s2⟩ := divCeil_spec l e he
+  have hr := Nat.mod_lt (divCeil l e) hN
+  rw [h2] at hs
+  generalize haL : (if divCeil l e % divCeil (divCeil l e) b = 0 then divCeil l e / divCeil (divCeil l e) b
+               else divCeil l e / divCeil (divCeil l e) b + 1) = aL at h3 hcov
+  have haL1 : 1 ≤ aL := by rw [← haL]; split <;> omega
+  have hroom := firstSym_room aL (divCeil l e / divCeil (divCeil l e) b)
+    (divCeil l e % divCeil (divCeil l e) b) (divCeil (divCeil l e) b) haL1 hq1
+    (divCeil (divCeil l e) b - (sbn + 1)) (by omega)
+  rw [firstSym_N _ _ _ _ (Nat.le_of_lt hr), hcov,
+    show divCeil (divCeil l e) b - (divCeil (divCeil l e) b - (sbn + 1)) = sbn + 1 by omega,
+    firstSym_succ] at hroom
+  have := bytes_mid (T := divCeil l e) (l := l) (e := e)
+    (s := firstSym aL (divCeil l e / divCeil (divCeil l e) b) (divCeil l e % divCeil (divCeil l e) b) sbn)
+    (k := symsOf aL (divCeil l e / divCeil (divCeil l e) b) (divCeil l e % divCeil (divCeil l e) b) sbn)
+    s2 (by omega)
+  unfold Rfc5052.byteLen Rfc5052.firstSymbol Rfc5052.symbolsOf
+  rw [h3, h4, h5]
+  exact this
+
+/-- (5a) Sender side.  For an object of `0 < L` bytes the sender's slicing loop (one `read_block_buffer` per block,
+    until `offset_end == len`) cuts exactly the `N` blocks of the RFC partition, in order: block `sbn` is announced
+    with `symbolsOf sbn` source symbols and covers the byte range `[first·E, min((first+k)·E, L))`, whose length is the
+    RFC byte length of the block. -/
+theorem sender_blocks_eq_rfc (b l e aL aS nL n : Nat) (hb : 0 < b) (he : 0 < e) (hl0 : 0 < l) (hl : l < 2^64)
+    (hq : blockPartitioning b l e = .ok (aL, aS, nL, n)) (fuel : Nat) (hf : n ≤ fuel) :
+    senderBlocks (aL, aS, nL, n) l e fuel 0 0 =
+      (List.range n).map (fun sbn =>
+        ((rfc5052 l e b).symbolsOf sbn, (rfc5052 l e b).firstSymbol sbn * e,
+         min (((rfc5052 l e b).firstSymbol sbn + (rfc5052 l e b).symbolsOf sbn) * e) l)) := by
+  rw [bp_shape b l e hb he hl0 hl] at hq
+  injection hq with hq
+  simp only [Prod.mk.injEq] at hq
+  obtain ⟨rfl, rfl, rfl, rfl⟩ := hq
+  have ⟨h1, h2, h3, h4, h5⟩ := spec_fields b l e hb he hl0
+  have hT : 0 < divCeil l e := divCeil_pos l e he hl0
+  have ⟨hN, hNT, _⟩ := nblocks_bounds (divCeil l e) b hT hb
+  have ⟨hq1, _, _⟩ := quad_shape (divCeil l e) (divCeil (divCeil l e) b) hN hNT
+  have hcov := coverage (divCeil l e) (divCeil (divCeil l e) b) hN
+  have ⟨s1, s2⟩ := divCeil_spec l e he
+  have hr := Nat.mod_lt (divCeil l e) hN
+  generalize haL : (if divCeil l e % divCeil (divCeil l e) b = 0 then divCeil l e / divCeil (divCeil l e) b
+               else divCeil l e / divCeil (divCeil l e) b + 1) = aL at h3 hcov
+  have haL1 : 1 ≤ aL := by rw [← haL]; split <;> omega
+  have hmain := senderBlocks_eq aL (divCeil l e / divCeil (divCeil l e) b)
+    (divCeil l e % divCeil (divCeil l e) b) (divCeil (divCeil l e) b) (divCeil l e) l e haL1 hq1
+    (Nat.le_of_lt hr) hcov s1 s2 (divCeil (divCeil l e) b - 1) (by omega) (divCeil (divCeil l e) b) fuel (by omega)
+  rw [show divCeil (divCeil l e) b - 1 - (divCeil (divCeil l e) b - 1) = 0 by omega,
+    show divCeil (divCeil l e) b - 1 + 1 = divCeil (divCeil l e) b by omega, firstSym_zero, Nat.zero_mul] at hmain
+  rw [hmain, List.range_eq_range']
+  unfold Rfc5052.firstSymbol Rfc5052.symbolsOf firstSym symsOf
+  rw [h3, h4, h5]
+
+/-- (5b) Receiver side.  The source-block length the receiver uses for block `sbn` when the payload ID carries none
+    (`a_large` if `sbn < nb_a_large` else `a_small`) is the RFC symbol count, i.e. what the sender announced;
+    together with `block_length_eq_rfc` both ends derive the same `(symbols, bytes)` for every block. -/
+theorem receiver_symbols_eq_rfc (b l e sbn aL aS nL n : Nat) (hb : 0 < b) (he : 0 < e) (hl0 : 0 < l) (hl : l < 2^64)
+    (hq : blockPartitioning b l e = .ok (aL, aS, nL, n)) :
+    receiverBlockSymbols (aL, aS, nL, n) sbn = (rfc5052 l e b).symbolsOf sbn := by
+  rw [bp_shape b l e hb he hl0 hl] at hq
+  injection hq with hq
+  simp only [Prod.mk.injEq] at hq
+  obtain ⟨rfl, rfl, rfl, rfl⟩ := hq
+  have ⟨h1, h2, h3, h4, h5⟩ := spec_fields b l e hb he hl0
+  unfold receiverBlockSymbols Rfc5052.symbolsOf
+  rw [h3, h4, h5]
+
+/-- (5c) Payload-ID-borne block length (RS under-specified): the number of source symbols the sender puts on the wire
+    for a block, `div_ceil(bytes of the block, E)`, equals the RFC symbol count of that block. -/
+theorem sender_wire_sbl_eq_rfc (b l e sbn : Nat) (hb : 0 < b) (he : 0 < e) (hl0 : 0 < l)
+    (hs : sbn < (rfc5052 l e b).N) :
+    divCeil ((rfc5052 l e b).byteLen l e sbn) e = (rfc5052 l e b).symbolsOf sbn := by
+  have ⟨h1, h2, h3, h4, h5⟩ := spec_fields b l e hb he hl0
+  have hT : 0 < divCeil l e := divCeil_pos l e he hl0
+  have ⟨hN, hNT, _⟩ := nblocks_bounds (divCeil l e) b hT hb
+  have ⟨hq1, _, _⟩ := quad_shape (divCeil l e) (divCeil (divCeil l e) b) hN hNT
+  have hcov := coverage (divCeil l e) (divCeil (divCeil l e) b) hN
+  have ⟨s1, s2⟩ := divCeil_spec l e he
+  have hr := Nat.mod_lt (divCeil l e) hN
+  rw [h2] at hs
+  generalize haL : (if divCeil l e % divCeil (divCeil l e) b = 0 then divCeil l e / divCeil (divCeil l e) b
+               else divCeil l e / divCeil (divCeil l e) b + 1) = aL at h3 hcov
+  have haL1 : 1 ≤ aL := by rw [← haL]; split <;> omega
+  have hroom := firstSym_room aL (divCeil l e / divCeil (divCeil l e) b)
+    (divCeil l e % divCeil (divCeil l e) b) (divCeil (divCeil l e) b) haL1 hq1
+    (divCeil (divCeil l e) b - (sbn + 1)) (by omega)
+  rw [firstSym_N _ _ _ _ (Nat.le_of_lt hr), hcov,
+    show divCeil (divCeil l e) b - (divCeil (divCeil l e) b - (sbn + 1)) = sbn + 1 by omega,
+    firstSym_succ] at hroom
+  have hk := symsOf_pos aL (divCeil l e / divCeil (divCeil l e) b) (divCeil l e % divCeil (divCeil l e) b) sbn haL1 hq1
+  unfold Rfc5052.byteLen Rfc5052.firstSymbol Rfc5052.symbolsOf
+  rw [h3, h4, h5]
+  show divCeil (min ((firstSym aL _ _ sbn + symsOf aL _ _ sbn) * e) l - min (firstSym aL _ _ sbn * e) l) e
+      = symsOf aL _ _ sbn
+  generalize hf : firstSym aL (divCeil l e / divCeil (divCeil l e) b) (divCeil l e % divCeil (divCeil l e) b) sbn = f at *
+  generalize hkk : symsOf aL (divCeil l e / divCeil (divCeil l e) b) (divCeil l e % divCeil (divCeil l e) b) sbn = k at *
+  have hadd : (f + k) * e = f * e + k * e := Nat.add_mul _ _ _
+  have hflt : f * e < l := sym_lt s2 (by omega)
+  apply divCeil_unique _ _ _ he
+  · -- bytes ≤ k·e
     omega
-  · rename_i h
-    have h3 : a + b - 1 = b * (a / b + 1) + (a % b - 1) := by
-      rw [Nat.mul_add]; omega
-    rw [h3, Nat.mul_add_div hb]
-    have : (a % b - 1) / b = 0 := Nat.div_eq_of_lt (by omega)
+  · -- k·e < bytes + e : the block reaches at least into its last symbol
+    have hlast : (f + k - 1) * e < l := sym_lt s2 (by omega)
+    have hsub : (f + k - 1) * e = (f + k) * e - e := by rw [Nat.sub_mul]; simp
     omega
+
+/-- (6) RaptorQ / Raptor.  The sender transmits `Z = N(B, L, E)`; the receiver's reconstructed maximum source block
+    length `B' = ⌈⌈L/Z⌉/E⌉` yields the same partition as the sender's `B`, for every `L > 0`. -/
+theorem raptor_B_reconstruct (b l e aL aS nL n : Nat) (hb : 0 < b) (he : 0 < e) (hl0 : 0 < l) (hl : l < 2^64)
+    (hq : blockPartitioning b l e = .ok (aL, aS, nL, n)) :
+    blockPartitioning (reconstructB l e n) l e = .ok (aL, aS, nL, n) := by
+  rw [bp_shape b l e hb he hl0 hl] at hq
+  injection hq with hq
+  simp only [Prod.mk.injEq] at hq
+  obtain ⟨rfl, rfl, rfl, rfl⟩ := hq
+  have hT : 0 < divCeil l e := divCeil_pos l e he hl0
+  have ⟨hN, hNT, _⟩ := nblocks_bounds (divCeil l e) b hT hb
+  have hB' : reconstructB l e (divCeil (divCeil l e) b) = divCeil (divCeil l e) (divCeil (divCeil l e) b) := by
+    unfold reconstructB
+    exact divCeil_divCeil_comm l _ e hN he
+  have hpos : 0 < reconstructB l e (divCeil (divCeil l e) b) := by
+    rw [hB']; exact divCeil_pos _ _ hN hT
+  rw [bp_shape _ l e hpos he hl0 hl, hB', divCeil_reconstruct _ _ hT hb]
+
+/-! ### non-vacuity: concrete instances meeting the hypotheses, with unequal blocks -/
+
+example : blockPartitioning 3 23 4 = .ok (3, 3, 0, 2) := by rfl
+example : blockPartitioning 4 23 4 = .ok (3, 3, 0, 2) := by rfl
+example : blockPartitioning 5 100 3 = .ok (5, 4, 6, 7) := by rfl
+example : rfc5052 100 3 5 = { T := 34, N := 7, aLarge := 5, aSmall := 4, I := 6 } := by decide
+example : blockLength 5 4 6 100 3 6 = .ok 10 ∧ (rfc5052 100 3 5).byteLen 100 3 6 = 10 := ⟨by rfl, by decide⟩
+example : senderBlocks (5, 4, 6, 7) 100 3 7 0 0 =
+    [(5,0,15),(5,15,30),(5,30,45),(5,45,60),(5,60,75),(5,75,90),(4,90,100)] := by decide
+example : reconstructB 100 3 7 = 5 ∧ blockPartitioning 6 100 3 = .ok (6, 5, 4, 6) ∧ reconstructB 100 3 6 = 6 :=
+  ⟨by decide, by rfl, by decide⟩
 
 end Flute.Props.C07
